@@ -31,6 +31,8 @@ const (
 	ErrIncorrectSwap = "incorrect swap"
 	// ErrIncorrectKey is a reason for multiswap
 	ErrIncorrectKey = "incorrect key"
+	// ErrSwapAlreadyExists is returned when an answer would replace an existing swap
+	ErrSwapAlreadyExists = "swap already exists"
 )
 
 // BaseContractInterface represents BaseContract interface
@@ -53,6 +55,11 @@ func Answer(stub *cachestub.BatchCacheStub, swap *proto.Swap, robotSideTimeout i
 		return &proto.SwapResponse{Id: swap.GetId(), Error: &proto.ResponseError{Error: err.Error()}}
 	}
 	txStub := stub.NewTxCacheStub(hex.EncodeToString(swap.GetId()))
+
+	// an open swap under this id (its escrow) must never be replaced by an answer
+	if _, err = Load(txStub, hex.EncodeToString(swap.GetId())); err == nil {
+		return &proto.SwapResponse{Id: swap.GetId(), Error: &proto.ResponseError{Error: ErrSwapAlreadyExists}}
+	}
 
 	swap.Creator = []byte("0000")
 	swap.Timeout = ts.GetSeconds() + robotSideTimeout
